@@ -829,7 +829,8 @@ func c02Encoders(c *Ctx) {
 			}
 			// an internal re-parse buffer: the function that marshals - or the package function that calls it - unmarshals
 			// again (proto.UnmarshalOptions.Unmarshal); the bytes are consumed there and never emitted
-			reparses := func(decl *ast.FuncDecl) bool {
+			var reparsesD func(decl *ast.FuncDecl, depth int) bool
+			reparsesD = func(decl *ast.FuncDecl, depth int) bool {
 				hit := false
 				if decl == nil || decl.Body == nil {
 					return false
@@ -838,12 +839,18 @@ func c02Encoders(c *Ctx) {
 					if call, ok := m.(*ast.CallExpr); ok {
 						if fn := Callee(pk.TypesInfo, call); fn != nil && fn.Name() == "Unmarshal" && fn.Pkg() != nil && fn.Pkg().Path() == "google.golang.org/protobuf/proto" {
 							hit = true
+						} else if fn != nil && fn.Pkg() == pk.Types && depth > 0 && !hit {
+							// the unmarshalling half moved into a helper of the package
+							if h := p.DeclOf(fn); h != nil && h.Decl != decl && reparsesD(h.Decl, depth-1) {
+								hit = true
+							}
 						}
 					}
 					return true
 				})
 				return hit
 			}
+			reparses := func(decl *ast.FuncDecl) bool { return reparsesD(decl, 1) }
 			internal := reparses(fd)
 			if !internal && fd != nil {
 				if self, ok := pk.TypesInfo.Defs[fd.Name].(*types.Func); ok {
